@@ -138,7 +138,7 @@ Outcome exchange(World &w, Src &s, Ctx &c, QuerySpec &qs, long full_size, const 
   (void)s;
   if (!o.got) {
     // a datagram of more than 65507 bytes cannot be sent at all; anything else must arrive
-    bool unsendable = !w.tcp && e.limit > 65507 && e.upper_bound > 65507;
+    bool unsendable = !w.tcp && e.limit > 65507 && (full_size >= 0 ? full_size > 65507 : e.upper_bound > 65507);
     CHECK(unsendable, "C35/no-response", "no response arrived (respond() returned %d, uncompressed size %zu, limit %zu, %s, %zu byte(s) of an incomplete TCP message, eof=%d)", c.respond_ret, e.upper_bound, e.limit, w.tcp ? "TCP" : "UDP", w.tcp_in.size(), (int)w.tcp_eof);
     verif_class("udp_unsendable"); return o;
   }
@@ -187,13 +187,14 @@ extern "C" int LLVMFuzzerTestOneInput(const uint8_t *data, size_t size) {
   }
   qs.compress_q = s.flag();
   // ---- the plan
-  std::vector<Rec> plan; size_t ub = 12; for (auto &q : qs.q) ub += wire_len(q.name) + 4;
+  std::vector<Rec> plan; size_t ub = 12; for (auto &q : qs.q) ub += name_ub(q.name) + 4;
   int ngroups = s.below(7); bool stop = false; bool used_oversize = false;
   for (int g = 0; g < ngroups && !stop; g++) {
-    static const int CNT[] = {1, 1, 2, 3, 5, 10, 30, 64, 130, 200, 400};
-    int count = CNT[s.below(11)];
+    static const int CNT[] = {1, 1, 1, 1, 2, 2, 3, 3, 5, 5, 10, 10, 30, 64, 130, 400};
+    int count = CNT[s.below(16)];
     int api = s.below(7); int section = (api == API_RAW || api == API_RAW_NAME) ? (int)s.below(3) : 0;
     int nmode = s.below(8), tmode = s.below(5); bool dot = rare(s, 1, 8);
+    if (nmode == 5 && count > 40) count = 40;      // long shared-suffix chains are quadratic in the label table; keep them short
     static const int DL[] = {0, 1, 4, 16, 100, 255, 256, 1000, 4000, 16000, 40000, 65535};
     size_t dl = (size_t)DL[s.below(12)]; if (dl >= 16 && dl < 65535) dl += s.below(16);
     static const int NADDR[] = {1, 1, 2, 3, 16, 100, 1000, 16383};
@@ -253,7 +254,7 @@ extern "C" int LLVMFuzzerTestOneInput(const uint8_t *data, size_t size) {
   //    passed 65536 - 600, owners and rdata names become "." (the root is written by a separate, bounds-checked branch).
   if (k_ptr || k_term) {
     std::set<std::string> old; for (auto &q : qs.q) old.insert(join(q.name));
-    size_t off = 12; for (auto &q : qs.q) off += wire_len(q.name) + 4;
+    size_t off = 12; for (auto &q : qs.q) off += name_ub(q.name) + 4;
     bool narrowed_ptr = false, narrowed_term = false; std::string repl = join(qs.q[0].name);
     for (int sec = 0; sec < 3; sec++) {
       if (sec == 2) off += 12;      // room for the server's own OPT
